@@ -19,7 +19,8 @@ LEVEL_TEXT = ('Static decision of the structural necessary conditions of termina
               'normalised truth table over two literals, the pre-tested single-step loop shape, accuracy '
               'bookkeeping, a ranking argument (a failed iteration leaves the loop), thresholds of the stop predicate '
               'written by nobody, resolution of every evaluated external symbol, no dead store to a name-mangled attribute from outside its '
-              'class, and the first-iteration guard left in the in-progress state by state-restoring entry points.')
+              'class, the first-iteration guard left in the in-progress state by state-restoring entry points, and no recursive copy '
+              'of linked search items on the path of the solving API.')
 EXPLANATION = ('Every syntactic path of the evaluation routine, the iteration driver (loop unrolled <= 2), the stop '
                'routine and the solve driver is abstracted to its event sequence; counters must change exactly once '
                'per evaluation/iteration after the objective returned, the stop routine must return exactly '
